@@ -3315,4 +3315,591 @@ theorem C05_nack_keeps_order {db : Db} {now : Time} {ids : List Id} {delays : Li
 
 end deadletter2
 
+/-! ### the fragment with dead-letter policies: C05 outright, equal publish times included -/
+
+section fragment_dl
+open Mmmbbb.Ord Mmmbbb.Ord2
+
+/-- referential integrity of one delivery row: its message and its subscription are in the tables -/
+def RowValid (db : Db) (x : Delivery) : Prop :=
+  (db.msgById x.msgId).isSome = true ∧ ∃ s ∈ db.subs, s.id = x.subId
+
+theorem RowValid.congr {db db' : Db} (hm : db'.msgs = db.msgs) (hs : db'.subs = db.subs) {x y : Delivery}
+    (h1 : y.msgId = x.msgId) (h2 : y.subId = x.subId) (h : RowValid db x) : RowValid db' y := by
+  unfold RowValid Db.msgById at *
+  rw [hm, hs, h1, h2]; exact h
+
+/-- what the per-operation theorems need of a state besides the ordering invariant: subscription ids
+    are unique, every delivery row refers to a stored message and a stored subscription -/
+structure WF2 (st : St) : Prop where
+  inv : Inv2 st.db st.now
+  uqA : ∀ a ∈ st.db.subs, ∀ b ∈ st.db.subs, a.id = b.id → a = b
+  fk  : ∀ d ∈ st.db.dels, RowValid st.db d
+
+theorem WF2.uqS {st : St} (h : WF2 st) :
+    ∀ a ∈ st.db.subs, ∀ b ∈ st.db.subs, a.live = true → b.live = true → a.id = b.id → a = b :=
+  fun a ha b hb _ _ hid => h.uqA a ha b hb hid
+
+theorem WF2.init : WF2 {} := by
+  refine ⟨Inv2.init 0, ?_, ?_⟩
+  · intro a ha; cases ha
+  · intro d hd; cases hd
+
+/-- dead-lettering keeps referential integrity: the forwarded rows carry the (stored) message of the
+    retired delivery and go to live subscriptions of the dead-letter topic -/
+theorem deadLetter_fk {db : Db} {d : Delivery} {dlt : Id} {now : Time} {fwds : List Fwd} {db' : Db} {w : List Id}
+    (h : deadLetter db d dlt now fwds = .ok (db', w)) (hfk : ∀ x ∈ db.dels, RowValid db x) :
+    ∀ x ∈ db'.dels, RowValid db' x := by
+  unfold deadLetter at h
+  split at h
+  · cases h
+  · rename_i db1 w1 hf
+    have h1 : db1.msgs = db.msgs ∧ db1.subs = db.subs ∧ ∀ x ∈ db1.dels, RowValid db1 x := by
+      unfold dlForward at hf
+      split at hf
+      · split at hf
+        · injection hf with hf; injection hf with e1 _; subst e1; exact ⟨rfl, rfl, hfk⟩
+        · cases hf
+      · rename_i t _
+        split at hf
+        · split at hf
+          · injection hf with hf; injection hf with e1 _; subst e1; exact ⟨rfl, rfl, hfk⟩
+          · cases hf
+        · split at hf
+          · cases hf
+          · rename_i m hm
+            obtain ⟨rows, hrows, e1, _⟩ := deliverAll_shape hf
+            obtain ⟨_, _, hall⟩ := mkRows_spec db (db.liveSubsOf t.id) m now fwds rows hrows
+            have hmid : m.id = d.msgId := by
+              unfold Db.msgById at hm
+              simpa using List.find?_some hm
+            subst e1
+            refine ⟨rfl, rfl, ?_⟩
+            intro x hx
+            rcases List.mem_append.mp hx with hx | hx
+            · exact (hfk x hx).congr rfl rfl rfl rfl
+            · obtain ⟨s, f, hs, _, _, rfl⟩ := hall x hx
+              refine ⟨?_, s, (liveSubsOf_mem hs).1, rfl⟩
+              show (db.msgById m.id).isSome = true
+              rw [hmid, hm]; rfl
+    obtain ⟨hm1, hs1, hfk1⟩ := h1
+    split at h
+    · cases h
+    · injection h with h
+      injection h with e2 _
+      subst e2
+      intro x hx
+      simp only [markCompleted, updateWhere] at hx
+      obtain ⟨x0, hx0, rfl⟩ := List.mem_map.mp hx
+      refine (hfk1 x0 hx0).congr rfl rfl ?_ ?_ <;> (split <;> rfl)
+
+/-- the three loops that dead-letter keep every property of the tables that dead-lettering keeps -/
+theorem pullLoop_pres (P : Db → Prop) (s : Sub) (now : Time) (maxBytes : Nat) (strict : Bool) (obs : PullObs)
+    (hDL : ∀ {db : Db} {d : Delivery} {dlt : Id} {fwds : List Fwd} {db' : Db} {w : List Id},
+      deadLetter db d dlt now fwds = .ok (db', w) → P db → P db') :
+    ∀ (cands : List Delivery) (i : Nat) (acc acc' : PullAcc),
+      pullLoop s now maxBytes strict obs i cands acc = .ok acc' → P acc.db → P acc'.db := by
+  intro cands
+  induction cands with
+  | nil =>
+    intro i acc acc' h hp
+    unfold pullLoop at h
+    injection h with h; subst h; exact hp
+  | cons d r ih =>
+    intro i acc acc' h hp
+    unfold pullLoop at h
+    split at h
+    · cases h
+    · split at h
+      · exact ih _ _ _ h hp
+      · split at h
+        · split at h
+          · cases h
+          · rename_i db' w hdl
+            exact ih _ _ _ h (hDL hdl hp)
+        · split at h
+          · cases h
+          · exact ih _ _ _ h hp
+
+theorem nackLoop_pres (P : Db → Prop) (now : Time) (delays : List (Id × Int)) (fwds : List (Id × List Fwd))
+    (hDL : ∀ {db : Db} {d : Delivery} {dlt : Id} {fw : List Fwd} {db' : Db} {w : List Id},
+      deadLetter db d dlt now fw = .ok (db', w) → P db → P db')
+    (hAt : ∀ (db : Db) (i : Id) (t : Time), P db → P { db with dels := setAttemptAt i t db.dels }) :
+    ∀ (rows : List Delivery) (acc acc' : NackAcc),
+      nackLoop now delays fwds rows acc = .ok acc' → P acc.db → P acc'.db := by
+  intro rows
+  induction rows with
+  | nil =>
+    intro acc acc' h hp
+    unfold nackLoop at h
+    injection h with h; subst h; exact hp
+  | cons d r ih =>
+    intro acc acc' h hp
+    unfold nackLoop at h
+    split at h
+    · cases h
+    · split at h
+      · split at h
+        · cases h
+        · rename_i db' w hdl
+          exact ih _ _ h (hDL hdl hp)
+      · split at h
+        · cases h
+        · exact ih _ _ h (hAt acc.db _ _ hp)
+
+theorem sweepLoop_pres (P : Db → Prop) (now : Time) (fwds : List (Id × List Fwd))
+    (hDL : ∀ {db : Db} {d : Delivery} {dlt : Id} {fw : List Fwd} {db' : Db} {w : List Id},
+      deadLetter db d dlt now fw = .ok (db', w) → P db → P db') :
+    ∀ (rows : List Delivery) (db : Db) (wakes : List Id) (db' : Db) (w : List Id),
+      sweepLoop now fwds rows db wakes = .ok (db', w) → P db → P db' := by
+  intro rows
+  induction rows with
+  | nil =>
+    intro db wakes db' w h hp
+    unfold sweepLoop at h
+    injection h with h; injection h with e1 _; subst e1; exact hp
+  | cons d r ih =>
+    intro db wakes db' w h hp
+    unfold sweepLoop at h
+    split at h
+    · cases h
+    · split at h
+      · cases h
+      · rename_i db1 w1 hdl
+        exact ih _ _ _ _ h (hDL hdl hp)
+
+/-- the tables a dead-lettering leaves alone, and referential integrity, as one property of a state -/
+def Struct (subs : List Sub) (msgs : List Msg) (db : Db) : Prop :=
+  db.subs = subs ∧ db.msgs = msgs ∧ ∀ x ∈ db.dels, RowValid db x
+
+theorem struct_deadLetter {subs : List Sub} {msgs : List Msg} {now : Time} {db : Db} {d : Delivery} {dlt : Id}
+    {fw : List Fwd} {db' : Db} {w : List Id} (h : deadLetter db d dlt now fw = .ok (db', w))
+    (hp : Struct subs msgs db) : Struct subs msgs db' := by
+  have hsame := deadLetter_other h
+  exact ⟨hsame.2.1.trans hp.1, hsame.2.2.1.trans hp.2.1, deadLetter_fk h hp.2.2⟩
+
+/-- a step that leaves deliveries, subscriptions and messages alone -/
+theorem stepOk2_of_same (db : Db) (now : Time) (db' : Db) (now' : Time) (hnow : now ≤ now')
+    (hd : db'.dels = db.dels) (hs : db'.subs = db.subs) (hm : db'.msgs = db.msgs) :
+    stepOk2 db now db' now' = true := by
+  refine stepOk2_of_append db now db' now' [] hnow (by rw [hd]; simp) hs ?_ rfl
+  intro d _
+  unfold keyOf Db.msgById; rw [hm]
+
+theorem WF2.of_tables {st st' : St} (h : WF2 st) (hd : st'.db.dels = st.db.dels) (hs : st'.db.subs = st.db.subs)
+    (hm : st'.db.msgs = st.db.msgs) (hnow : st.now ≤ st'.now) : WF2 st' := by
+  refine ⟨h.inv.step (stepOk2_of_same st.db st.now st'.db st'.now hnow hd hs hm), ?_, ?_⟩
+  · rw [hs]; exact h.uqA
+  · rw [hd]; intro d hdm; exact (h.fk d hdm).congr hm hs rfl rfl
+
+theorem WF2.step_advance {st : St} (h : WF2 st) (d : Int) (hd : 0 ≤ d) : WF2 (Mmmbbb.step st (.advance d)).1 := by
+  refine h.of_tables rfl rfl rfl ?_
+  show st.now ≤ st.now + d
+  unfold Time at *; omega
+
+theorem WF2.step_createTopic {st : St} (h : WF2 st) (n : String) (l : StrMap) (i : Id) :
+    WF2 (Mmmbbb.step st (.createTopic n l i)).1 := by
+  simp only [Mmmbbb.step]
+  cases hc : createTopic st.db st.now n l i with
+  | error e => simp only [finish]; exact h
+  | ok o =>
+    simp only [finish]
+    unfold createTopic at hc
+    split at hc
+    · cases hc
+    · split at hc
+      · cases hc
+      · injection hc with hc; subst hc
+        exact h.of_tables rfl rfl rfl (Int.le_refl _)
+
+/-- a step that rewrites delivery rows in place (identity, message and subscription kept) -/
+theorem WF2.of_dels_map {st st' : St} (h : WF2 st) (g : Delivery → Delivery)
+    (hd : st'.db.dels = st.db.dels.map g) (hs : st'.db.subs = st.db.subs) (hm : st'.db.msgs = st.db.msgs)
+    (hg : ∀ d, (g d).msgId = d.msgId ∧ (g d).subId = d.subId)
+    (hok : stepOk2 st.db st.now st'.db st'.now = true) : WF2 st' := by
+  refine ⟨h.inv.step hok, ?_, ?_⟩
+  · rw [hs]; exact h.uqA
+  · rw [hd]; intro d hdm
+    obtain ⟨d0, hd0, rfl⟩ := List.mem_map.mp hdm
+    exact (h.fk d0 hd0).congr hm hs (hg d0).1 (hg d0).2
+
+theorem WF2.step_ack {st : St} (h : WF2 st) (ids : List Id)
+    (hdel : ∀ d ∈ st.db.dels, ids.contains d.id = true → 0 < d.attempts) : WF2 (Mmmbbb.step st (.ack ids)).1 := by
+  refine h.of_dels_map (fun x => if (ids.contains x.id && x.completedAt.isNone) = true then { x with completedAt := some st.now } else x)
+    ?_ ?_ ?_ ?_ ?_
+  · simp only [Mmmbbb.step, Mmmbbb.ack, finish, updateWhere]
+  · simp only [Mmmbbb.step, Mmmbbb.ack, finish]
+  · simp only [Mmmbbb.step, Mmmbbb.ack, finish]
+  · intro d; split <;> exact ⟨rfl, rfl⟩
+  · simp only [Mmmbbb.step, Mmmbbb.ack, finish]
+    refine stepOk2_of_map st.db st.now _ st.now
+      (fun x => if (ids.contains x.id && x.completedAt.isNone) = true then { x with completedAt := some st.now } else x)
+      (Int.le_refl _) (by simp only [updateWhere]) rfl ?_
+    intro d hd
+    split
+    · rename_i hc
+      simp only [Bool.and_eq_true] at hc
+      exact rowUpdOk_complete st.db st.now _ rfl d _ (hdel d hd hc.1)
+    · exact rowUpdOk_refl st.db st.now _ rfl d
+
+theorem WF2.step_delay {st : St} (h : WF2 st) (ids : List Id) (Δ : Int) : WF2 (Mmmbbb.step st (.delay ids Δ)).1 := by
+  simp only [Mmmbbb.step]
+  unfold delay
+  simp only
+  split
+  · simp only [finish]
+    refine h.of_dels_map (fun x => if (ids.contains x.id && x.completedAt.isNone) = true then { x with attemptAt := st.now + Δ } else x)
+      (by simp only [updateWhere]) rfl rfl (fun d => by split <;> exact ⟨rfl, rfl⟩) ?_
+    refine stepOk2_of_map st.db st.now _ st.now
+      (fun x => if (ids.contains x.id && x.completedAt.isNone) = true then { x with attemptAt := st.now + Δ } else x)
+      (Int.le_refl _) (by simp only [updateWhere]) rfl ?_
+    intro d _
+    split
+    · exact rowUpdOk_attemptAt st.db st.now _ rfl d _
+    · exact rowUpdOk_refl st.db st.now _ rfl d
+  · simp only [finish]
+    refine h.of_dels_map (fun x => if ((ids.contains x.id && x.completedAt.isNone) && decide (x.attemptAt < st.now + Δ)) = true
+        then { x with attemptAt := st.now + Δ } else x)
+      (by simp only [updateWhere]) rfl rfl (fun d => by split <;> exact ⟨rfl, rfl⟩) ?_
+    refine stepOk2_of_map st.db st.now _ st.now
+      (fun x => if ((ids.contains x.id && x.completedAt.isNone) && decide (x.attemptAt < st.now + Δ)) = true
+        then { x with attemptAt := st.now + Δ } else x)
+      (Int.le_refl _) (by simp only [updateWhere]) rfl ?_
+    intro d _
+    split
+    · exact rowUpdOk_attemptAt st.db st.now _ rfl d _
+    · exact rowUpdOk_refl st.db st.now _ rfl d
+
+theorem struct_setAttemptAt {subs : List Sub} {msgs : List Msg} (db : Db) (i : Id) (t : Time)
+    (hp : Struct subs msgs db) : Struct subs msgs { db with dels := setAttemptAt i t db.dels } := by
+  refine ⟨hp.1, hp.2.1, ?_⟩
+  intro x hx
+  simp only [setAttemptAt, updateWhere] at hx
+  obtain ⟨x0, hx0, rfl⟩ := List.mem_map.mp hx
+  refine (hp.2.2 x0 hx0).congr rfl rfl ?_ ?_ <;> (split <;> rfl)
+
+theorem WF2.step_dlSweep {st : St} (h : WF2 st) (mx : Nat) (v : List Id) (fw : List (Id × List Fwd)) :
+    WF2 (Mmmbbb.step st (.dlSweep mx v fw)).1 := by
+  simp only [Mmmbbb.step]
+  cases hc : dlSweep st.db st.now mx v fw with
+  | error e => simp only [finish]; exact h
+  | ok o =>
+    simp only [finish]
+    have hinv := C05_sweep_keeps_order hc h.inv h.uqS
+    have hstruct : Struct st.db.subs st.db.msgs o.db := by
+      unfold dlSweep at hc
+      split at hc
+      · cases hc
+      · split at hc
+        · cases hc
+        · split at hc
+          · cases hc
+          · rename_i db1 wakes hloop
+            injection hc with hc; subst hc
+            exact sweepLoop_pres (Struct st.db.subs st.db.msgs) st.now fw (fun hdl hp => struct_deadLetter hdl hp)
+              _ st.db [] db1 wakes hloop ⟨rfl, rfl, h.fk⟩
+    exact ⟨hinv, by rw [hstruct.1]; exact h.uqA, hstruct.2.2⟩
+
+theorem WF2.step_nack {st : St} (h : WF2 st) (ids : List Id) (ds : List (Id × Int)) (fw : List (Id × List Fwd)) :
+    WF2 (Mmmbbb.step st (.nack ids ds fw)).1 := by
+  simp only [Mmmbbb.step]
+  cases hc : nack st.db st.now ids ds fw with
+  | error e => simp only [finish]; exact h
+  | ok o =>
+    simp only [finish]
+    have hinv := C05_nack_keeps_order hc h.inv h.uqS
+    have hstruct : Struct st.db.subs st.db.msgs o.db := by
+      unfold nack at hc
+      simp only at hc
+      split at hc
+      · cases hc
+      · rename_i acc hloop
+        injection hc with hc; subst hc
+        exact nackLoop_pres (Struct st.db.subs st.db.msgs) st.now ds fw (fun hdl hp => struct_deadLetter hdl hp)
+          (fun db i t hp => struct_setAttemptAt db i t hp) _ _ acc hloop ⟨rfl, rfl, h.fk⟩
+    exact ⟨hinv, by rw [hstruct.1]; exact h.uqA, hstruct.2.2⟩
+
+/-- rewriting subscriptions in place (identities kept) keeps referential integrity and unique ids -/
+theorem fk_subs_map {db db' : Db} (gs : Sub → Sub) (hd : db'.dels = db.dels) (hm : db'.msgs = db.msgs)
+    (hs : db'.subs = db.subs.map gs) (hgs : ∀ x, (gs x).id = x.id)
+    (hfk : ∀ x ∈ db.dels, RowValid db x) : ∀ x ∈ db'.dels, RowValid db' x := by
+  rw [hd]
+  intro x hx
+  obtain ⟨h1, s0, hs0, hid⟩ := hfk x hx
+  refine ⟨?_, gs s0, ?_, by rw [hgs]; exact hid⟩
+  · unfold Db.msgById at *; rw [hm]; exact h1
+  · rw [hs]; exact List.mem_map.mpr ⟨s0, hs0, rfl⟩
+
+theorem uqA_subs_map {subs : List Sub} (gs : Sub → Sub) (hgs : ∀ x, (gs x).id = x.id)
+    (h : ∀ a ∈ subs, ∀ b ∈ subs, a.id = b.id → a = b) :
+    ∀ a ∈ subs.map gs, ∀ b ∈ subs.map gs, a.id = b.id → a = b := by
+  intro a ha b hb hid
+  obtain ⟨a0, ha0, rfl⟩ := List.mem_map.mp ha
+  obtain ⟨b0, hb0, rfl⟩ := List.mem_map.mp hb
+  rw [h a0 ha0 b0 hb0 (by rw [← hgs a0, ← hgs b0]; exact hid)]
+
+theorem WF2.step_pull {st : St} (h : WF2 st) (sn : String) (mx mb : Nat) (strict : Bool) (wait : Int) (obs : PullObs)
+    (hwait : 0 ≤ wait) : WF2 (Mmmbbb.step st (.pull sn mx mb strict wait obs)).1 := by
+  simp only [Mmmbbb.step]
+  cases hp : pull st.db st.now sn mx mb strict wait obs with
+  | error e => exact h
+  | ok r =>
+    obtain ⟨o, now'⟩ := r
+    simp only
+    have hinv := C05_pull_keeps_order hp hwait h.inv h.uqS
+    obtain ⟨s, hs, hcase⟩ := pull_ok_shape2 hp
+    -- the two expiry refreshes as one rewrite of the subscriptions table
+    have hsubs2 : ∀ t1 t2 : Time, (refreshExpiry (refreshExpiry st.db s t1) s t2).subs = st.db.subs.map
+        (fun x => (fun y => if (y.id == s.id) = true then { y with expiresAt := t2 + s.ttl } else y)
+          ((fun y => if (y.id == s.id) = true then { y with expiresAt := t1 + s.ttl } else y) x)) := by
+      intro t1 t2
+      simp only [refreshExpiry, updateWhere, List.map_map]; rfl
+    have hgs2 : ∀ (t1 t2 : Time) (x : Sub), ((fun y : Sub => if (y.id == s.id) = true then { y with expiresAt := t2 + s.ttl } else y)
+          ((fun y : Sub => if (y.id == s.id) = true then { y with expiresAt := t1 + s.ttl } else y) x)).id = x.id := by
+      intro t1 t2 x
+      exact ((refreshGs s t2 _).1).trans (refreshGs s t1 x).1
+    have hfkR : ∀ t1 t2 : Time, ∀ x ∈ (refreshExpiry (refreshExpiry st.db s t1) s t2).dels,
+        RowValid (refreshExpiry (refreshExpiry st.db s t1) s t2) x :=
+      fun t1 t2 => fk_subs_map (db := st.db) (db' := refreshExpiry (refreshExpiry st.db s t1) s t2) _ rfl rfl
+        (hsubs2 t1 t2) (hgs2 t1 t2) h.fk
+    rcases hcase with ⟨_, hdb⟩ | ⟨_, cands, acc, _, _, hloop, hdb⟩
+    · refine ⟨hinv, ?_, ?_⟩
+      · show ∀ a ∈ o.db.subs, ∀ b ∈ o.db.subs, a.id = b.id → a = b
+        rw [hdb, hsubs2]
+        exact uqA_subs_map _ (hgs2 _ _) h.uqA
+      · show ∀ d ∈ o.db.dels, RowValid o.db d
+        rw [hdb]
+        exact hfkR _ _
+    · have hfk0 := hfkR st.now st.now
+      have hstruct := pullLoop_pres (Struct (refreshExpiry (refreshExpiry st.db s st.now) s st.now).subs
+          (refreshExpiry (refreshExpiry st.db s st.now) s st.now).msgs) s st.now mb strict obs
+        (fun hdl hp => struct_deadLetter hdl hp) cands 0 _ acc hloop ⟨rfl, rfl, hfk0⟩
+      refine ⟨hinv, ?_, ?_⟩
+      · show ∀ a ∈ o.db.subs, ∀ b ∈ o.db.subs, a.id = b.id → a = b
+        rw [hdb]
+        show ∀ a ∈ acc.db.subs, ∀ b ∈ acc.db.subs, a.id = b.id → a = b
+        rw [hstruct.1, hsubs2]
+        exact uqA_subs_map _ (hgs2 _ _) h.uqA
+      · show ∀ d ∈ o.db.dels, RowValid o.db d
+        rw [hdb]
+        intro d hd
+        have hd' : d ∈ applyLeases st.now acc.delivered acc.db.dels := hd
+        unfold applyLeases at hd'
+        obtain ⟨d0, hd0, rfl⟩ := List.mem_map.mp hd'
+        have hf := applyLease_fields st.now acc.delivered d0
+        exact (hstruct.2.2 d0 hd0).congr rfl rfl hf.2.1 hf.2.2.1
+
+theorem WF2.step_createSub {st : St} (h : WF2 st) (p : CreateSubParams) (i : Id) :
+    WF2 (Mmmbbb.step st (.createSub p i)).1 := by
+  simp only [Mmmbbb.step]
+  cases hc : Mmmbbb.createSub st.db st.now p i with
+  | error e => simp only [finish]; exact h
+  | ok o =>
+    simp only [finish]
+    obtain ⟨t, dlId, _, _, _, hfresh, hdb, _⟩ := createSub_ok hc
+    have hold : ∀ s ∈ st.db.subs, s.id ≠ i := by
+      intro s hs heq
+      have := allIds_of_sub st.db s hs
+      rw [heq, hfresh] at this; cases this
+    have hnew : ∀ d ∈ st.db.dels, d.subId ≠ i := by
+      intro d hd heq
+      obtain ⟨_, s0, hs0, hid⟩ := h.fk d hd
+      exact hold s0 hs0 (hid.trans heq)
+    have hok : stepOk2 st.db st.now o.db st.now = true := by
+      unfold stepOk2
+      simp only [Bool.and_eq_true, decide_eq_true_eq, Bool.or_eq_true]
+      refine ⟨⟨Int.le_refl _, ?_⟩, Or.inl ?_⟩
+      · unfold subsOk
+        rw [hdb]
+        apply List.all_eq_true.mpr
+        intro s' hs'
+        simp only [List.mem_append, List.mem_singleton] at hs'
+        rcases hs' with hs' | hs'
+        · cases hl : s'.live with
+          | false => simp
+          | true =>
+            simp only [Bool.not_true, Bool.false_or, Bool.or_eq_true, List.any_eq_true, Bool.and_eq_true, beq_iff_eq]
+            left
+            exact ⟨s', hs', ⟨⟨⟨hl, rfl⟩, rfl⟩, rfl⟩⟩
+        · subst hs'
+          simp only [Bool.or_eq_true]
+          right
+          apply List.all_eq_true.mpr
+          intro d hd
+          simpa [mkSub] using hnew d hd
+      · unfold growOk2
+        rw [hdb]
+        simp only [List.take_length, List.drop_length, Bool.and_eq_true]
+        exact ⟨rowsUpdOk_refl st.db st.now { st.db with subs := st.db.subs ++ [mkSub st.now p i t.id dlId] } rfl st.db.dels, rfl⟩
+    refine ⟨h.inv.step hok, ?_, ?_⟩
+    · rw [hdb]; intro a ha b hb hid
+      simp only [List.mem_append, List.mem_singleton] at ha hb
+      rcases ha with ha | ha <;> rcases hb with hb | hb
+      · exact h.uqA a ha b hb hid
+      · subst hb; exact absurd hid (by simpa [mkSub] using hold a ha)
+      · subst ha; exact absurd hid.symm (by simpa [mkSub] using hold b hb)
+      · rw [ha, hb]
+    · rw [hdb]; intro d hd
+      obtain ⟨h1, s0, hs0, hid⟩ := h.fk d hd
+      exact ⟨h1, s0, List.mem_append_left _ hs0, hid⟩
+
+/-- publishing one message keeps the invariants of the fragment, at the instant it happens -/
+theorem WF2.publishOne {db db1 : Db} {t : Topic} {now : Time} {pm : PubMsg} {w : List Id}
+    (h : WF2 { db := db, now := now }) (h1 : publishOne db t now pm = .ok (db1, w)) :
+    WF2 { db := db1, now := now } := by
+  have hok := C05_refines2_publish_one db db1 t now pm w h1 (fun d hd => (h.fk d hd).1) h.uqS h.inv.uniq h.inv.past
+  obtain ⟨m, dbm, hmid, hdbm, hfreshm, hdel⟩ := publishOne_shape h1
+  obtain ⟨rows, hrows, hdb1, _⟩ := deliverAll_shape hdel
+  obtain ⟨_, _, hall⟩ := mkRows_spec dbm (dbm.liveSubsOf t.id) m now pm.fwds rows hrows
+  have hsubs : db1.subs = db.subs := by rw [hdb1, hdbm]
+  have hmsgs : db1.msgs = db.msgs ++ [m] := by rw [hdb1, hdbm]
+  have hmsg : (db1.msgById m.id).isSome = true := by
+    unfold Db.msgById
+    rw [hmsgs, List.find?_append]
+    cases hfind : db.msgs.find? (fun x => x.id == m.id) with
+    | some _ => rfl
+    | none => simp
+  refine ⟨h.inv.step hok, by rw [hsubs]; exact h.uqA, ?_⟩
+  intro d hd
+  rw [hdb1] at hd
+  have hd' : d ∈ dbm.dels ++ rows := hd
+  rw [hdbm] at hd'
+  rcases List.mem_append.mp hd' with hd' | hd'
+  · obtain ⟨h1', s0, hs0, hid⟩ := h.fk d hd'
+    refine ⟨?_, s0, by rw [hsubs]; exact hs0, hid⟩
+    cases hx : db.msgById d.msgId with
+    | none => rw [hx] at h1'; cases h1'
+    | some x =>
+      have := msgById_append_of_some (m := m) hx
+      unfold Db.msgById at this ⊢
+      rw [hmsgs]; rw [this]; rfl
+  · obtain ⟨s, f, hs, _, _, rfl⟩ := hall d hd'
+    refine ⟨hmsg, s, ?_, rfl⟩
+    rw [hsubs]
+    have := (liveSubsOf_mem hs).1
+    rw [hdbm] at this; exact this
+
+theorem WF2.publishLoop (t : Topic) (tick : Int) (htick : 0 ≤ tick) :
+    ∀ (ms : List PubMsg) (db : Db) (now : Time) (wakes : List Id) (db' : Db) (w' : List Id),
+      WF2 { db := db, now := now } →
+      Mmmbbb.publishLoop t tick db now wakes ms = .ok (db', w') →
+      WF2 { db := db', now := now + tick * (ms.length : Nat) } := by
+  intro ms
+  induction ms with
+  | nil =>
+    intro db now wakes db' w' h hl
+    unfold Mmmbbb.publishLoop at hl
+    injection hl with hl; injection hl with h1 _; subst h1
+    have : now + tick * ((([] : List PubMsg).length : Nat) : Int) = now := by simp
+    rw [this]; exact h
+  | cons pm r ih =>
+    intro db now wakes db' w' h hl
+    unfold Mmmbbb.publishLoop at hl
+    split at hl
+    · cases hl
+    · rename_i db1 w h1
+      have hstep := h.publishOne h1
+      have hlater : WF2 { db := db1, now := now + tick } :=
+        hstep.of_tables rfl rfl rfl (by show now ≤ now + tick; unfold Time at *; omega)
+      have := ih db1 (now + tick) (wakes ++ w) db' w' hlater hl
+      have hlen : now + tick + tick * ((r.length : Nat) : Int) = now + tick * (((pm :: r).length : Nat) : Int) := by
+        simp only [List.length_cons]
+        have : ((r.length + 1 : Nat) : Int) = (r.length : Int) + 1 := by omega
+        rw [this, Int.mul_add, Int.mul_one]
+        unfold Time at *
+        omega
+      rw [hlen] at this; exact this
+
+theorem WF2.step_publish {st : St} (h : WF2 st) (tn : String) (tick : Int) (ms : List PubMsg) (htick : 0 ≤ tick) :
+    WF2 (Mmmbbb.step st (.publish tn tick ms)).1 := by
+  simp only [Mmmbbb.step]
+  cases hp : publish st.db st.now tn tick ms with
+  | error e => exact h
+  | ok o =>
+    simp only
+    unfold publish at hp
+    split at hp
+    · cases hp
+    · rename_i t ht
+      split at hp
+      · cases hp
+      · rename_i db' wakes hl
+        injection hp with hp; subst hp
+        exact WF2.publishLoop t tick htick ms st.db st.now [] db' wakes h hl
+
+/-- the fragment with dead-letter policies: clock advances, topic creation, subscription creation with
+    *any* configuration (dead-letter policies, ordering, filters), publishes — single and batched, the
+    clock may stand still between messages and between operations —, pulls, nacks, deadline changes,
+    acknowledgements of handed-out deliveries and the dead-letter sweep.  (Deletions, expiry, snapshots
+    and the prune jobs are in the fragment of `C05_fragment`, which has no dead-letter policies; seeks
+    are in neither.) -/
+def fragOkDL (st : St) : Op → Prop
+  | .advance d => 0 ≤ d
+  | .createTopic _ _ _ => True
+  | .createSub _ _ => True
+  | .publish _ tick _ => 0 ≤ tick
+  | .pull _ _ _ _ wait _ => 0 ≤ wait
+  | .ack ids => ∀ d ∈ st.db.dels, ids.contains d.id = true → 0 < d.attempts
+  | .nack _ _ _ => True
+  | .delay _ _ => True
+  | .dlSweep _ _ _ => True
+  | _ => False
+
+instance (st : St) (op : Op) : Decidable (fragOkDL st op) := by
+  cases op <;> unfold fragOkDL <;> infer_instance
+
+def fragRunDL : St → List Op → Prop
+  | _, [] => True
+  | st, op :: r => fragOkDL st op ∧ fragRunDL (Mmmbbb.step st op).1 r
+
+theorem WF2.step {st : St} (h : WF2 st) (op : Op) (hf : fragOkDL st op) : WF2 (Mmmbbb.step st op).1 := by
+  cases op with
+  | advance d => exact h.step_advance d hf
+  | createTopic n l i => exact h.step_createTopic n l i
+  | createSub p i => exact h.step_createSub p i
+  | publish t tick ms => exact h.step_publish t tick ms hf
+  | pull sn mx mb strict wait obs => exact h.step_pull sn mx mb strict wait obs hf
+  | ack ids => exact h.step_ack ids hf
+  | nack ids ds fw => exact h.step_nack ids ds fw
+  | delay ids d => exact h.step_delay ids d
+  | dlSweep mx v fw => exact h.step_dlSweep mx v fw
+  | _ => exact absurd hf (by simp [fragOkDL])
+
+theorem WF2.run : ∀ (ops : List Op) (st : St), WF2 st → fragRunDL st ops → WF2 (Mmmbbb.run st ops)
+  | [], _, h, _ => h
+  | op :: r, st, h, hf => by
+    rw [run_cons]
+    exact WF2.run r _ (h.step op hf.1) hf.2
+
+/-- **C05 with dead-letter policies, outright**: for *every* history of clock advances (by any amount,
+    zero included), topic creations, subscription creations with any configuration — dead-letter policies
+    into ordered subscriptions, chains of them, filters —, publishes (single and batched; the clock need
+    not move between messages), pulls of any size (which dead-letter the candidates whose attempts are
+    used up and lease the others), nacks, deadline changes, acknowledgements of handed-out deliveries and
+    dead-letter sweeps of any batch size: in the state it reaches no keyed delivery of an ordered
+    subscription is eligible while an earlier-published delivery of the same key is outstanding.
+    No clock assumption and no hypothesis evaluated on the run: deliveries forwarded in one transaction
+    share their publish time, and the second sort key of the predecessor query (652c205, regenerated from
+    the source on every run) is what the proof of the enqueueing step uses. -/
+theorem C05_fragment_dl (ops : List Op) (h : fragRunDL {} ops) :
+    let st := Mmmbbb.run {} ops
+    ∀ s ∈ st.db.subs, s.live = true → s.ordered = true → ∀ d ∈ st.db.dels, ∀ e ∈ st.db.dels,
+      d.subId = s.id → e.subId = s.id →
+      (∃ k, k ≠ "" ∧ (st.db.msgById d.msgId).bind (·.orderKey) = some k ∧ (st.db.msgById e.msgId).bind (·.orderKey) = some k) →
+      e.publishedAt < d.publishedAt → e.isOpen st.now = true → st.db.eligible s st.now d = false := by
+  intro st s hs hlive hord d hd e he hds hes hkey hlt hopen
+  have hinv : Inv2 st.db st.now := (WF2.run ops {} WF2.init h).inv
+  obtain ⟨k, hk, h1, h2⟩ := hkey
+  have k1 := keyOf_of_bind hk h1
+  have k2 := keyOf_of_bind hk h2
+  exact hinv.ordered s hs hlive hord d e hd he hds hes (k1.trans k2.symm) (by rw [k1]; simp) hlt hopen
+
+/-- non-vacuity: the history of `exampleTieHistory` — two same-key deliveries forwarded by one sweep
+    into an ordered subscription with the same publish time, a third message of the key published
+    behind them — lies inside the fragment -/
+example : fragRunDL {} exampleTieHistory := by
+  refine ⟨trivial, trivial, trivial, trivial, by decide, by decide, by decide, by decide, trivial, by decide, by decide, by decide, trivial⟩
+
+end fragment_dl
+
 end Mmmbbb
